@@ -8,6 +8,7 @@ allocation request is (1) checked against the query (providers exist, placed == 
 exposed), (2) sent unchanged as the allocations of a new consumer on a snapshot of the database and must be answered 204;
 `provider_summaries` are compared (3) with values derived from the dump of the real tables at the microversion used and
 (4) with the summaries computed by the Lean specification."""
+from harness import ppool
 import copy
 import hashlib
 import json
@@ -286,7 +287,7 @@ def run(chk):
     ctx = mp.get_context('fork')
     seeds = [chk.seed * 1000003 + i for i in range(n_states)]
     errors = []
-    with ctx.Pool(procs, initializer=cands.init_worker) as pool:
+    with ppool.Pool(ctx, procs, initializer=cands.init_worker) as pool:
         for res in pool.imap_unordered(case, [(s, nq) for s in seeds], chunksize=4):
             if 'error' in res:
                 errors.append(res['error'])
